@@ -18,21 +18,15 @@ from .facts import VERIF
 
 
 def _run(args):
+    from . import scratch
     label, kind, ref, prop = args
-    d = tempfile.mkdtemp(prefix="selftest-")
-    wt = os.path.join(d, "repo")
     out = {"change": label, "kind": kind}
     try:
-        rev = ref if kind == "revision" else "HEAD"
-        r = subprocess.run(["git", "-C", "/repo", "worktree", "add", "--detach", wt, rev, "-q"], capture_output=True, text=True)
-        if r.returncode != 0:
-            out["result"] = "could not create worktree: " + r.stderr[-200:]
-            return out
-        if kind == "seed":
-            r = subprocess.run(["git", "-C", wt, "apply", "-3", "--whitespace=nowarn", ref], capture_output=True, text=True)
-            if r.returncode != 0:
-                out["result"] = "patch does not apply to the current tree"
-                return out
+        d, wt = scratch.make(patch=ref if kind == "seed" else None, rev=ref if kind == "revision" else None)
+    except Exception as e:
+        out["result"] = "could not prepare scratch copy: %s" % str(e)[-200:]
+        return out
+    try:
         env = dict(os.environ, REPO=wt, VERIF_WORK=os.path.join(d, "work"), VERIF_EVIDENCE_DIR=os.path.join(d, "ev"), VERIF_TIER="quick")
         r = subprocess.run([os.path.join(VERIF, "check"), prop, "--tier", "quick"], capture_output=True, text=True, env=env, cwd=VERIF)
         rules = sorted({l.split(" at ")[0].replace("  rule ", "").strip() for l in r.stdout.splitlines() if l.startswith("  rule ")})
@@ -40,8 +34,7 @@ def _run(args):
         out["rules_fired"] = rules[:8]
         out["result"] = "caught" if r.returncode == 1 else "analysis-broken" if r.returncode == 2 else "missed"
     finally:
-        subprocess.run(["git", "-C", "/repo", "worktree", "remove", "--force", wt], capture_output=True)
-        shutil.rmtree(d, ignore_errors=True)
+        scratch.remove(d)
     return out
 
 
